@@ -333,6 +333,15 @@ func (o *structFieldsCBOR) FromCBOR(dm cbor.DecMode, data []byte) error {
 	}
 
 	if mapLen != 0 {
+		// Each map entry takes up at least two bytes of input (one
+		// for the key and one for the value), so a declared length
+		// exceeding that cannot be satisfied. Check this up front, so
+		// that the sender-controlled length cannot be used to make us
+		// reserve memory for entries that are not there.
+		if mapLen > len(rest)/2 {
+			return errors.New("unexpected EOF")
+		}
+
 		o.Fields = make(map[int]cbor.RawMessage, mapLen)
 
 		for i := 0; i < mapLen; i++ {
